@@ -28,7 +28,9 @@ RULE = (
     "property; value alphabets incl. None, fractional charges, arrays of lengths 0-3, two orbital "
     "sets. Exhaustive to depth 3 (quick) / 4 (thorough) over a reduced alphabet + Hypothesis "
     "state machine (<= 40 steps). After every step the statement's invariants are evaluated on a "
-    "deep copy. Non-trivial = a history with >= 1 successful assignment after a property read "
+    "deep copy (charge identity, read-back of assigned and of cleared values, core charges "
+    "unchanged or defaulting to the atomic numbers, agreement with the orbitals, per-atom lengths, "
+    "failed assignments leave every observable unchanged, reads idempotent). Non-trivial = a history with >= 1 successful assignment after a property read "
     "(lazy-default interplay); distinct by spec hash."
 )
 ASSUMPTIONS = [
